@@ -1793,6 +1793,61 @@ def gen_private_plane(rng):
 
 
 # =============================================================================================
+def matcher_call_purity(ctx):
+    """XYXYMatch.__call__ as an entry point of its own: the two caller-owned tables (and the corrector handed
+    over in the deprecated `tp_wcs=` form) are the same before and after the call, in both forms of the call
+    and when the call is repeated with another tangent plane"""
+    import warnings
+    from astropy.table import Table
+    from tweakwcs.matchutils import XYXYMatch
+    from .. import scenes
+    rng = ctx.rng
+    for _ in range(ctx.n(6, 60)):
+        c, info = scenes.mk_jwst(rng) if rng.random() < 0.5 else scenes.mk_fits(rng, kind=rng.choice(['cd', 'pc', 'lut']))
+        c2, _i2 = scenes.mk_fits(rng, kind='cd', pointing=tuple(info['crval']))
+        nx, ny = scenes.image_size(c)
+        n = rng.randint(4, 15)
+        pts = []
+        for _k in range(3000):
+            if len(pts) == n:
+                break
+            q = (rng.uniform(30, nx - 30), rng.uniform(30, ny - 30))
+            if all(abs(q[0] - r[0]) + abs(q[1] - r[1]) > 40 for r in pts):
+                pts.append(q)
+        pts = np.array(pts)
+        ra, dec = c.det_to_world(pts[:, 0] + 0.4, pts[:, 1] - 0.3)
+        form = rng.choice(['tp_wcs', 'tpxy'])
+        case = {'type': 'matcher-call', 'form': form, 'corrector': info, 'n': len(pts)}
+        ctx.case(case, nontrivial=True, branch='matcher-call:' + form)
+        m = XYXYMatch(searchrad=3.0, separation=0.5, tolerance=1.5, use2dhist=rng.random() < 0.5)
+        if form == 'tp_wcs':
+            refcat = Table([np.asarray(ra, float), np.asarray(dec, float)], names=('RA', 'DEC'), meta={'name': 'r'})
+            imcat = Table([pts[:, 0], pts[:, 1]], names=('x', 'y'), meta={'name': 'i'})
+            kws = [{'tp_wcs': c}, {'tp_wcs': c2}]
+        else:
+            rt = np.array(c.world_to_tanp(ra, dec), dtype=float)
+            it = np.array(c.det_to_tanp(pts[:, 0], pts[:, 1]), dtype=float)
+            refcat = Table([rt[0], rt[1], np.asarray(ra, float)], names=('TPx', 'TPy', 'RA'))
+            imcat = Table([it[0], it[1], pts[:, 0]], names=('TPx', 'TPy', 'x'))
+            kws = [{}, {}]
+        before = (snap_table(refcat), snap_table(imcat), snap_corrector_full(c), snap_corrector_full(c2))
+        for kw in kws:
+            try:
+                with warnings.catch_warnings():
+                    warnings.simplefilter('ignore')
+                    m(refcat, imcat, tp_pscale=float(c.tanp_center_pixel_scale), **kw)
+            except Exception as e:   # noqa
+                ctx.oracle_fail(case, {'what': 'XYXYMatch raised on valid catalogs', 'error': repr(e)[:160]})
+                break
+            after = (snap_table(refcat), snap_table(imcat), snap_corrector_full(c), snap_corrector_full(c2))
+            for nm, a, b in zip(('reference table', 'image table', 'corrector', 'second corrector'), before, after):
+                df = sorted(k for k in set(a) | set(b) if a.get(k) != b.get(k))
+                if df:
+                    ctx.oracle_fail(case, {'what': 'XYXYMatch.__call__ modified the caller-owned %s' % nm,
+                                           'changed': [str(x) for x in df[:6]]})
+                    break
+
+
 def dispatch(ctx, case, lines, pending):
     t = case.get('type', 'sequence')
     if t == 'probe-F21':
@@ -1824,6 +1879,7 @@ def run(ctx):
     cases.extend(gen_private_plane(rng) for _ in range(ctx.n(8, 80)))
     for case in cases:
         dispatch(ctx, case, lines, pending)
+    matcher_call_purity(ctx)
     outs = ctx.driver(lines)
     compare(ctx, outs, pending)
 
